@@ -20,6 +20,7 @@ import (
 	"math/rand"
 	"os"
 	"sort"
+	"regexp"
 	"strconv"
 	"strings"
 	"sync"
@@ -322,7 +323,72 @@ func smCheckNone(c *smCase, sum benchmath.Summary, sorted []float64, cf float64)
 	return "none-confidence-not-exact-coverage", fmt.Sprintf("reported %v, exact coverage of %v..%v differs (2^n=%d)", sum.Confidence, ls, rs, c.Pow)
 }
 
+var smNeededDone bool
+
+var smNeedRe = regexp.MustCompile(`need (>=|>) ([0-9]+) samples`)
+
+// smNeededSamples: the warning of an infinite interval says how many samples are needed - so a
+// sample of that many (distinct) values gets a finite interval at this level and one value fewer
+// does not; "more than N" means N values do not suffice.  Levels at and next to 1 - 2^(1-k), where
+// the answer changes from k to k+1, for every k up to 52.
+func smNeededSamples() Verdict {
+	thr := benchmath.DefaultThresholds
+	mk := func(n int) *benchmath.Sample {
+		v := make([]float64, n)
+		for i := range v {
+			v[i] = float64(3*i + 1)
+		}
+		return smSample(v, &thr)
+	}
+	infinite := func(n int, cf float64) bool {
+		sum := benchmath.AssumeNothing.Summary(mk(n), cf)
+		return math.IsInf(sum.Lo, 0) || math.IsInf(sum.Hi, 0)
+	}
+	for k := 2; k <= 52+700; k++ {
+		at := 1 - math.Ldexp(1, 1-k)
+		if k > 52 {
+			// ... and 700 levels spread evenly over the orders of magnitude of 1 - level
+			at = 1 - math.Pow(10, -0.3-14.7*float64(k-53)/700)
+		}
+		for _, cf := range []float64{at, math.Nextafter(at, 0), math.Nextafter(at, 1)} {
+			if cf <= 0 || cf >= 1 {
+				continue
+			}
+			sum := benchmath.AssumeNothing.Summary(mk(1), cf)
+			ws := smWarnStrings(sum.Warnings)
+			if len(ws) == 0 {
+				return fail("none-infinite-without-warning", "one value at level %v: no warning", cf)
+			}
+			m := smNeedRe.FindStringSubmatch(strings.Join(ws, " | "))
+			if m == nil {
+				continue // wording is free; the count is judged where it can be read
+			}
+			n, _ := strconv.Atoi(m[2])
+			if n < 1 || n > 70 {
+				continue
+			}
+			if m[1] == ">=" {
+				if infinite(n, cf) {
+					return fail("none-warning-wrong-count", "level %v: the warning says %q, but %d values still give an infinite interval", cf, m[0], n)
+				}
+				if n > 2 && !infinite(n-1, cf) {
+					return fail("none-warning-wrong-count", "level %v: the warning says %q, but %d values already give a finite interval", cf, m[0], n-1)
+				}
+			} else if !infinite(n, cf) {
+				return fail("none-warning-wrong-count", "level %v: the warning says %q, but %d values give a finite interval", cf, m[0], n)
+			}
+		}
+	}
+	return pass()
+}
+
 func smReplayNone(c *smCase) Verdict {
+	if !smNeededDone { // once per process, with the first assume-nothing case
+		smNeededDone = true
+		if v := smNeededSamples(); !v.OK {
+			return v
+		}
+	}
 	rng := newRand(int64(c.Serial)*7919 + 13)
 	cf := c.C.f()
 	thr := benchmath.DefaultThresholds
